@@ -451,7 +451,7 @@ func drvBJSON(c *ctx) error {
 	case "text":
 		for i := 0; i < c.n; i++ {
 			c.emit(hexEvent(c, c.bytesN(c.rnd.Intn(24))))
-			ts := time.Unix(c.rnd.Int63n(4102444800), int64(c.pick(0, 1, 500000000, 999999999))).In(time.FixedZone("", c.pick(0, 3600, -18000, 19800, 45*60)))
+			ts := time.Unix(c.rnd.Int63n(4102444800), int64(c.pick(0, 1, 500000000, 999999999))).In(time.FixedZone("", c.pick(0, 3600, -18000, 19800, 45*60, 1172, -3599, 30, 86399-3600*10)))
 			c.emit(timeEvent(ts))
 			if i%8 == 0 {
 				for _, ev := range backendReuseEvents(c) {
